@@ -15,6 +15,8 @@ use serde::Serialize;
 use serde_json::{json, Value};
 
 pub const SHARDS: usize = 16;
+/// upper bound on concurrently running shards (stress parts lower it: their cases are multi-threaded themselves)
+pub static PAR_LIMIT: std::sync::atomic::AtomicUsize = std::sync::atomic::AtomicUsize::new(usize::MAX);
 
 #[derive(Clone, Copy, PartialEq, Eq, Debug)]
 pub enum Tier {
@@ -262,7 +264,7 @@ where
 {
     acc.lock().unwrap().parts.push(format!("{part}:{engine}:{}x{}", SHARDS, cases));
     let found: Mutex<Option<Violation>> = Mutex::new(None);
-    let threads = std::thread::available_parallelism().map(|n| n.get()).unwrap_or(4).min(SHARDS);
+    let threads = std::thread::available_parallelism().map(|n| n.get()).unwrap_or(4).min(SHARDS).min(PAR_LIMIT.load(Ordering::SeqCst)).max(1);
     let next = std::sync::atomic::AtomicUsize::new(0);
     std::thread::scope(|sc| {
         for _ in 0..threads {
